@@ -546,9 +546,12 @@ impl Model {
                 }
             }
             let n_alt = [o.even, o.odd].iter().flatten().filter(|x| x.2.is_some()).count();
+            // an altitude of 0 ft is one of the two spellings of 'no altitude' (C06): with it the
+            // details may be present or absent
+            let n_alt_pos = [o.even, o.odd].iter().flatten().filter(|x| x.2.map_or(false, |v| v != 0)).count();
             let n_slots = [o.even, o.odd].iter().flatten().count();
             let base = o.position.is_some() && o.distance.is_some();
-            let must = base && n_alt == 2;
+            let must = base && n_alt_pos == 2;
             let must_not = !base || n_alt == 0 || n_slots == 0;
             if (must && o.details.is_none()) || (must_not && o.details.is_some()) {
                 out.push(Disagreement {
